@@ -16,6 +16,7 @@ import (
 	"raven/internal/conf"
 	"raven/internal/db"
 	"raven/internal/models"
+	"raven/internal/server/utils"
 )
 
 // ServerDeps defines the dependencies that auth handlers need from the server
@@ -108,8 +109,8 @@ func HandleLogin(deps ServerDeps, conn net.Conn, tag string, parts []string, sta
 	}
 
 	// Extract username and password, removing quotes if present
-	username := strings.Trim(parts[2], "\"")
-	password := strings.Trim(parts[3], "\"")
+	username := utils.ParseQuotedString(parts[2])
+	password := utils.ParseQuotedString(parts[3])
 
 	// Use common authentication logic
 	authenticateUser(deps, conn, tag, username, password, state)
